@@ -25,7 +25,7 @@ WRAPS := pthread_create pthread_join pthread_mutex_lock pthread_mutex_trylock pt
   pthread_cond_wait pthread_cond_timedwait pthread_cond_clockwait pthread_cond_signal pthread_cond_broadcast \
   clock_gettime gettimeofday time nanosleep clock_nanosleep usleep sleep sched_yield \
   epoll_wait select poll read write readv writev send recv sendto recvfrom accept accept4 connect \
-  sigprocmask pthread_sigmask sigaction syscall open open64
+  sigprocmask pthread_sigmask sigaction syscall open open64 arc4random arc4random_buf arc4random_uniform getentropy getrandom _ZNSt13random_device9_M_getvalEv
 comma := ,
 WRAPFLAGS := $(foreach w,$(WRAPS),-Wl$(comma)--wrap=$(w))
 
